@@ -406,7 +406,8 @@ async fn run_one_batch(fix: &Fixture, ws: &mut WsPeer, entries: &[Entry], js: &[
 			.iter()
 			.filter(|l| l.phase == "run")
 			.map(|l| {
-				let p = l.params.as_ref().and_then(|p| serde_json::from_str::<Value>(p).ok());
+				// (read with the harness's own parser: params may be nested deeper than serde_json's `Value` allows)
+				let p = l.params.as_ref().and_then(|p| parse_strict(p.as_bytes()).ok()).map(|j| j.to_value());
 				(l.name.clone(), if p == Some(Value::Null) { None } else { p })
 			})
 			.collect();
